@@ -223,6 +223,12 @@ def chunk_sites(tree):
                 and pyast.unparse(n.args[0]) in ('self.backend.upload_stream', 'self.backend.download_stream')]
         need(len(used) == 1 and isinstance(used[0].args[-1], ast.Name) and used[0].args[-1].id == var and len(used[0].args) in (4, 5),
              f'{fn.name}: {var} is not the chunk size handed to the backend stream call')
+        # the chunk-size variable is bound exactly twice in the whole function (the limited and the unlimited branch): nothing
+        # - loop variable, later assignment, closure rebinding - changes it before the (possibly deferred) backend call reads it
+        binds = [n for n in ast.walk(fn) if isinstance(n, ast.Name) and n.id == var and isinstance(n.ctx, (ast.Store, ast.Del))]
+        binds += [a for f2 in ast.walk(fn) if isinstance(f2, (ast.FunctionDef, ast.AsyncFunctionDef, ast.Lambda)) and f2 is not fn
+                  for a in f2.args.args + f2.args.kwonlyargs if a.arg == var]
+        need(len(binds) == 2, f'{fn.name}: {var} is bound {len(binds)} times in the function (expected the two branches only)')
         wraps = [n for n in ast.walk(fn) if isinstance(n, ast.Call) and pyast.unparse(n.func) == 'rate_limiter.wrap']
         need(len(wraps) == 1, f'{fn.name}: expected one rate_limiter.wrap')
         # the stream handed to the backend is wrapped whenever there is a limiter - no further condition:
